@@ -3,6 +3,7 @@ package routetab
 import (
 	"context"
 	"errors"
+	"sync"
 	"sync/atomic"
 
 	"github.com/gauss-project/aurorafs/pkg/addressbook"
@@ -62,17 +63,28 @@ type verifC28Sent struct {
 }
 
 type verifC28Streamer struct {
-	sent []*verifC28Sent
-	fail bool // NewStream fails (after recording the attempt)
+	mu     sync.Mutex
+	sent   []*verifC28Sent
+	fail   bool   // NewStream fails (after recording the attempt)
+	refuse string // NewStream fails for streams of this name (after recording the attempt)
 }
 
 func (v *verifC28Streamer) NewStream(ctx context.Context, address boson.Address, h p2p.Headers, protocol, version, stream string) (p2p.Stream, error) {
 	st := zzstream.New()
+	v.mu.Lock()
 	v.sent = append(v.sent, &verifC28Sent{peer: address, name: stream, s: st})
-	if v.fail {
+	v.mu.Unlock()
+	if v.fail || (v.refuse != "" && stream == v.refuse) {
 		return nil, errors.New("verif: stream refused")
 	}
 	return st, nil
+}
+
+// number of streams opened so far (safe while a handler runs in another goroutine)
+func (v *verifC28Streamer) count() int {
+	v.mu.Lock()
+	defer v.mu.Unlock()
+	return len(v.sent)
 }
 func (v *verifC28Streamer) NewRelayStream(ctx context.Context, address boson.Address, h p2p.Headers, protocol, version, stream string, midCall bool) (p2p.Stream, error) {
 	panic("unused")
@@ -281,9 +293,14 @@ func VerifC28_ReqForward() {
 		src := boson.NewAddress(zzverif.BytesN("src", 1))
 		var recv [][][]byte
 		var req *pb.RouteReq
+		var ch chan struct{}
 		if zzverif.Bool("own-request") {
-			// request originated by this node (FindRoute passes req == nil)
+			// request originated by this node: FindRoute passes req == nil and the
+			// channel on which it waits for the answer (thorough tier: also without)
 			src = self
+			if zzverif.Param("own-channel-varies", 0, 1) == 0 || zzverif.Bool("own-with-channel") {
+				ch = make(chan struct{}, 4)
+			}
 		} else {
 			items := verifC28Path("p", zzverif.Param("reqpathmax", 1, ttl))
 			recv = append(recv, items)
@@ -299,7 +316,7 @@ func VerifC28_ReqForward() {
 		for i := 0; i < nn; i++ {
 			next = append(next, boson.NewAddress(zzverif.BytesN("next", 1)))
 		}
-		s.doRouteReq(context.Background(), next, src, boson.NewAddress(target), req, nil)
+		s.doRouteReq(context.Background(), next, src, boson.NewAddress(target), req, ch)
 		for ; checked < len(str.sent); checked++ {
 			snt := str.sent[checked]
 			zzverif.Assert(snt.name == streamOnRouteReq, "forward-on-req-stream")
@@ -522,4 +539,108 @@ func VerifC28_RelayNext() {
 		zzverif.Assert(!verifC28BEq(next, self.Bytes()), "relay-next-hop-is-not-self")
 	}
 	zzverif.Reach("C28-relay")
+}
+
+// VerifC28_RelayRefind: next-hop selection of a relayed stream on the re-find
+// path of GetNextHopRandomOrFind: the first look-up finds no usable next hop
+// (no route, or every recorded next hop is on the relay path / not connected),
+// the real FindRoute asks the neighbours (doRouteReq with its result channel)
+// and waits; the harness then delivers an arbitrary acceptable route response
+// through the real onRouteResp, which records the paths and wakes FindRoute;
+// the second look-up chooses the next hop. Obligation (d) on the stream that
+// onRelayConnChain then opens (refused by the stub), and the "at most once
+// while pending / not to self" clauses of (c) on the requests FindRoute sent.
+func VerifC28_RelayRefind() {
+	ttl := zzverif.Param("ttl", 2, 3)
+	atomic.StoreInt32(&MaxTTL, int32(ttl))
+	NeighborAlpha = 2
+	zzverif.Unwind(64)
+	self := boson.NewAddress([]byte{0xee})
+	str := &verifC28Streamer{refuse: StreamOnRelayConnChain}
+	s := verifC28Service(self, str)
+	// two connected neighbours with reachability records: FindRoute has somebody to ask
+	s.kad = kademlia.VerifC28NewKad(self, 0,
+		[]boson.Address{boson.NewAddress(verifC28N1), boson.NewAddress(verifC28N2)}, []bool{true, false})
+
+	nroutes := zzverif.Choose("nroutes", 2)
+	for r := 0; r < nroutes; r++ {
+		n := zzverif.Choose("pre-len", ttl-1) + 2
+		items := make([][]byte, n)
+		for i := range items {
+			items[i] = zzverif.BytesN("pre-item", 1)
+		}
+		zzverif.Assume(!verifC28Has(items, self.Bytes()))
+		s.routeTable.SavePath(&pb.Path{Items: items})
+	}
+
+	target := zzverif.BytesN("dest", 1)
+	zzverif.Assume(!verifC28BEq(target, self.Bytes())) // delivery to this node is not a relay step
+	peer := boson.NewAddress(zzverif.BytesN("peer", 1))
+	path := verifC28Path("relay", 2)
+	req := &pb.RouteRelayReq{Src: zzverif.BytesN("src", 1), Dest: target, Paths: path,
+		ProtocolName: []byte("x"), ProtocolVersion: []byte("1"), StreamName: []byte("y")}
+
+	// the response that will answer the route requests of FindRoute: one path
+	// of 2..MaxTTL arbitrary items without this node (such a response is
+	// accepted by onRouteResp; responses that are discarded leave FindRoute
+	// waiting for its timer, which is outside the claim)
+	from := boson.NewAddress(zzverif.BytesN("resp-from", 1))
+	resp := &pb.RouteResp{Dest: target}
+	{
+		n := zzverif.Choose("resp-len", ttl-1) + 2
+		items := make([][]byte, n)
+		for j := range items {
+			items[j] = zzverif.BytesN("resp-item", 1)
+		}
+		zzverif.Assume(!verifC28Has(items, self.Bytes()))
+		resp.Paths = append(resp.Paths, &pb.Path{Items: items})
+	}
+
+	var mu sync.Mutex
+	done := false
+	var rerr error
+	go func() {
+		e := s.onRelayConnChain(context.Background(), p2p.Peer{Address: peer}, zzstream.New(req))
+		mu.Lock()
+		rerr = e
+		done = true
+		mu.Unlock()
+	}()
+	isDone := func() bool {
+		mu.Lock()
+		defer mu.Unlock()
+		return done
+	}
+	// the handler has finished (next hop known at once, or nobody to ask) or it
+	// has sent its route requests and waits for an answer
+	zzverif.WaitUntil(func() bool { return isDone() || str.count() >= 1 }, "relay handler finished or asked for a route")
+	if !isDone() {
+		zzverif.Yield() // let the second route request (if any) go out
+		nreq := str.count()
+		for k := 0; k < nreq; k++ {
+			snt := str.sent[k]
+			zzverif.Assert(snt.name == streamOnRouteReq, "find-route-opens-request-streams")
+			zzverif.Assert(!verifC28BEq(snt.peer.Bytes(), self.Bytes()), "request-not-forwarded-to-self")
+			for j := 0; j < k; j++ {
+				zzverif.Assert(!verifC28BEq(str.sent[j].peer.Bytes(), snt.peer.Bytes()), "no-second-forward-while-pending")
+			}
+		}
+		err := s.onRouteResp(context.Background(), p2p.Peer{Address: from}, zzstream.New(resp))
+		zzverif.Assert(err == nil, "onRouteResp-no-error")
+		zzverif.WaitUntil(isDone, "relay handler finished after the route response")
+		zzverif.Reach("C28-relay-refind-answered")
+	}
+	zzverif.Assert(rerr != nil, "relay-fails-when-forward-stream-refused")
+	nrelay := 0
+	for _, snt := range str.sent {
+		if snt.name != StreamOnRelayConnChain {
+			continue // route requests of FindRoute, responses relayed by respForward
+		}
+		nrelay++
+		next := snt.peer.Bytes()
+		zzverif.Assert(verifC28BEq(next, target) || !verifC28Has(path, next), "relay-next-hop-is-target-or-not-on-path")
+		zzverif.Assert(!verifC28BEq(next, self.Bytes()), "relay-next-hop-is-not-self")
+	}
+	zzverif.Assert(nrelay <= 1, "at-most-one-forward-stream")
+	zzverif.Reach("C28-relay-refind")
 }
